@@ -382,8 +382,8 @@ class RealBusModel(BusModel):
         self.menu_name = "real"
         self.key = f"busreal|aw{aw}|dw{dw}|{interconnect}"
         M = self.M
-        self.base = [("slave", o, s, c) for o in (None, 0x0, 0x1000, M["ORIG"][5]) for s in (M["SIZE"][2], M["SIZE"][3], M["SIZE"][5])
-                     for c in (True, False)]
+        self.base = [("slave", o, s, c) for o in (None, 0x0, 0x1000, M["ORIG"][5]) for s in (M["SIZE"][1], M["SIZE"][2], M["SIZE"][3], M["SIZE"][5])
+                     for c in (True, False)]           # SIZE[1] fits into the rounded-up tail of the non power-of-two SIZE[3]
         self.base += [("io", *M["IO"][0]), ("io", *M["IO"][1])]
         self.base += [("master", False, False), ("master", False, True), ("master", True, False)]
         self.exprs = {}
